@@ -421,6 +421,11 @@ def check_ctor_misc(res):
         ('bbox_str', lambda: RegionBoundingBox(0, '2', 0, 3), True),
         ('bbox_none', lambda: RegionBoundingBox(0, 2, None, 3), True),
         ('bbox_quantity', lambda: RegionBoundingBox(0, 2, 0, 3 * _u().pix), True),
+        ('bbox_inverted_uint8', lambda: RegionBoundingBox(np.uint8(7), np.uint8(5), 0, 3), True),
+        ('bbox_inverted_uint16_y', lambda: RegionBoundingBox(0, 3, np.uint16(9), np.uint16(2)), True),
+        ('bbox_inverted_uint_vs_int', lambda: RegionBoundingBox(np.uint64(4), 3, 0, 3), True),
+        ('bbox_inverted_int8_wide', lambda: RegionBoundingBox(np.int8(100), np.int8(-100), 0, 3), True),
+        ('bbox_wide_int8_ok', lambda: RegionBoundingBox(np.int8(-100), np.int8(100), 0, 3), False),
         ('bbox_np_int8_ok', lambda: RegionBoundingBox(np.int8(0), np.int16(2), np.uint8(0), np.longlong(3)), False),
         ('bbox_inverted', lambda: RegionBoundingBox(3, 2, 0, 3), True),
         ('circle_annulus_equal', lambda: regions.CircleAnnulusPixelRegion(V('pix12'), 2.5, 2.5), True),
